@@ -10,6 +10,7 @@ from . import r_more as M
 from . import r_c06 as Z
 from . import r_ptg as G
 from . import r_fmt as Q
+from . import r_c11 as D
 
 
 def part(fn, **kw):
@@ -61,6 +62,10 @@ def registry():
         "Decides: numeric Data/DataRef variants are built in the three readers only through formats::format_excel_* whose format operand comes from the cell's style lookup and whose date-system operand from the reader flag (R-NUMCTOR); the two built-in id tables agree with each other and with ECMA-376 18.8.30 (R-TAB-FMT); format kind -> DateTime/TimeDelta flavour (R-TAB-FMTKIND); style tables get one entry per xf (R-SST).",
         "the full number-format grammar (R-FMT-SCAN decides the per-character decision table of the scanner against the clauses the property states, not the language as a whole)",
         [W.r_numctor, T.r_tab_fmt, T.r_tab_fmtkind, part(W.r_sst, only=["cellXfs", "XF table"]), W.r_fmtprec, M.r_unesc, Q.r_fmt_scan])
+    R["C11"] = _p(
+        "Decides only the totality clause of C11 (feature `dates`): every chrono call reachable in the date conversions is a fallible/checked API or has constant operands, so a serial value beyond the representable calendar yields None rather than a panic (R-PANIC-DATES).",
+        "epoch, 1900 leap-year shim, 1904 offset, rounding to the millisecond, monotonicity, as_date/as_time being components of as_datetime: all numeric and not decided",
+        [D.r_c11])
     R["C12"] = _p(
         "Decides: after a fragment switch inside a character run the compression flag is re-read and its byte consumed; rich-text runs then extended data are skipped unconditionally in order; Record::skip consumes no flag byte (R-CONT); the SST gets one entry per item (R-SST).",
         "8/16-bit decoding arithmetic (XlsEncoding::decode_to, encoding_rs)",
@@ -94,7 +99,6 @@ def registry():
 
 NOT_APPLICABLE = {
     "C05": "Range rectangle consistency is index arithmetic over run-time coordinates (inner.len() == width*height, placement, growth, windowing); no structural clause is a necessary condition, and a symbolic length algebra would be a solver, i.e. a different technique family",
-    "C11": "epoch, leap-year shim, rounding and monotonicity are numeric; only the totality clause (no panicking chrono call with an unguarded operand) is structural and it is not yet built",
     "C15": "shared-formula translation is a text rewrite over an open formula language; which substrings are references and the offset arithmetic are value-level (amplification through the ref attribute is covered under C06)",
     "C18": "VBA decompression correctness is bit-level arithmetic over token streams; module naming and offsets are run-time values (robustness of decompress_stream is covered under C06)",
 }
